@@ -249,6 +249,54 @@ def ob_cmake(n, at_only):
     return h
 
 
+def classify_cmakedefine(label, inputs):
+    d = {n: v for k, n, v in inputs}
+    if label.startswith('cmakedefine: output') and d.get('extra') == 4 and d.get('is01') == 0 and d.get('name') in ('1', '2') and d.get('k') == d.get('name'):
+        return 'a bare token equal to a data key on a #cmakedefine line is replaced by the value'
+    return label
+
+
+def ob_cmakedefine(at_only):
+    """#cmakedefine / #cmakedefine01 lines through the real dispatcher do_conf_str_cmake: whatever the indentation and the whitespace after '#'"""
+    def h():
+        ws0 = ['', ' ', '\t', '  '][choose(4, 'w0')]
+        ws1 = ['', ' ', '\t'][choose(3, 'w1')]
+        is01 = choose(2, 'is01') == 1
+        name = sym_str(1 + choose(2, 'nl'), 'name', alphabet='ab_1')
+        ek = choose(5, 'extra')
+        ph = ('@' + name + '@') if at_only else ('${' + name + '}')
+        extra = [[], ['x'], [ph], ['x', ph, 'y'], ['1', '2']][ek]
+        eol = ['\n', '\r\n', ''][choose(3, 'eol')]
+        line = ws0 + '#' + ws1 + 'cmakedefine' + ('01' if is01 else '') + [' ', '\t', '  '][choose(3, 'w2')] + name
+        for e in extra: line = line + ' ' + e
+        line = line + ['', ' '][choose(2, 'w3')] + eol
+        key = sym_str(len(name), 'k', alphabet='ab_1')
+        vk = choose(4, 'vkind')
+        if vk == 0: val = sym_str(choose(3, 'vl'), 'v', alphabet='x0 ')
+        elif vk == 1: val = sym_int('vi', -9, 9)
+        elif vk == 2: val = sym_bool('vb')
+        else: val = ''
+        conf = CD([(key, (val, None))])
+        res, miss, useless = U.do_conf_str_cmake('src', [line], conf, at_only)
+        check(len(res) == 1, 'one output line per input line')
+        got = res[0]
+        defined = decide(bt_any(key == name))
+        if vk in (0, 3): truthy = len(val) > 0
+        elif vk == 1: truthy = decide(bt_any(val != 0))
+        else: truthy = decide(bt_any(val))
+        if is01:
+            exp = '#define ' + name + ' ' + ('1' if (defined and truthy) else '0') + '\n'; cover('01')
+        elif not defined or not truthy:
+            exp = '/* #undef ' + name + ' */\n'; cover('undef')
+        else:
+            txt = '#define ' + name
+            for e in extra: txt = txt + ' ' + e
+            exp, _ = ref_cmake(txt + '\n', [(key, val)], at_only); cover('define')
+        check(len(got) == len(exp), 'cmakedefine: output length')
+        if len(got) == len(exp): check(eq(got, exp), 'cmakedefine: output text')
+    return h
+
+
 class Rec:
     def __init__(self): self.parts = []
     def write(self, s): self.parts.append(s)
@@ -303,6 +351,10 @@ def obligations(tier):
         for n in range(1, 8 if q else 9):
             out.append(Obligation('cmake%s-line[%d]' % ('@' if at_only else '', n), ob_cmake(n, at_only), dict(length=n, alphabet='@${}aB .', at_only=at_only),
                                   labels=('done',), max_paths=5000000))
+    for at_only in (False, True):
+        out.append(Obligation('cmakedefine%s' % ('@' if at_only else ''), ob_cmakedefine(at_only), dict(indentation='none|space|tab|2 spaces', after_hash='none|space|tab', variant='cmakedefine|cmakedefine01',
+                              name='1-2 chars', extra_tokens='0-3 incl. a placeholder of the name', value='str <=2 | int | bool | empty | undefined', eol='LF|CRLF|none'),
+                              labels=('01', 'undef', 'define'), max_paths=3000000, classify=classify_cmakedefine))
     for n in (1, 2) if q else (1, 2, 3):
         out.append(Obligation('header[%d]' % n, ob_header(n), dict(entries=n), labels=('done',), max_paths=3000000))
     return out
